@@ -68,12 +68,9 @@ func verifC12Ascending(rs []shareAckRange) bool {
 // verifC12Off returns a symbolic offset. Full mode: any offset in [0, 2^40). Window mode (used
 // where an arbitrary probe offset is compared against every emitted batch; the containment
 // queries are intractable for the solvers on full-width offsets): base + w with base = 2^33
-// concrete and w symbolic in [0, 2^8) (thorough: [0, 2^16)).
+// concrete and w symbolic in [0, 2^8).
 func verifC12Off(name string, window bool) int64 {
 	if window {
-		if verifThorough() {
-			return verifC12Base + int64(verifNondetUint16(name))
-		}
 		return verifC12Base + int64(verifNondetUint8(name))
 	}
 	o := verifNondetInt64(name)
@@ -100,9 +97,9 @@ func verifC12Build(nEnt, nGap int, dup bool, label string, onlyAscending bool) {
 	e.slab[1] = &shareAckSlab{ackSource: e.s1, cursor: e.cur, sessionEpoch: ep1}
 
 	// Slice order. Order harnesses: arbitrary. Coverage harness: ascending or descending by
-	// offset (chosen per path); thorough with <= 3 items in total: arbitrary.
+	// offset (chosen per path).
 	order := -1
-	if !onlyAscending && !(verifThorough() && nEnt+nGap <= 3) {
+	if !onlyAscending {
 		order = verifChoose(2)
 	}
 	states := make([]*shareAckState, nEnt)
